@@ -290,6 +290,9 @@ func parseThriftVec(c *Ctx, prop string, raw stdjson.RawMessage) (*thriftVec, bo
 }
 
 func c13Vector(c *Ctx, raw stdjson.RawMessage) {
+	if varintVector(c, "C13", raw) {
+		return
+	}
 	var mv struct {
 		Messages []msgCase `json:"messages"`
 	}
@@ -544,6 +547,9 @@ func c13Doubles(c *Ctx) {
 }
 
 func c13Replay(c *Ctx, raw stdjson.RawMessage) {
+	if varintVector(c, "C13", raw) {
+		return
+	}
 	// replays re-run the whole vector case: layout/vals carry everything but the spec bytes, which the
 	// stored want/asis hex strings provide
 	var k thriftCase
